@@ -14,6 +14,49 @@ type Unit struct {
 	MapOrd  int            // >0: range over maps is a schedule choice with K=MapOrd
 	OnlyThorough bool
 	MaxPaths     int
+	Only         string // only checks whose id starts with this prefix belong to the property
+}
+
+// ---- shared L3 units (HarnessL3: whole generator on a symbolic schema + emitted code on a
+// symbolic document); each property takes the units relevant to it and filters its own
+// check ids.
+
+func mergeParams(a, b map[string]int) map[string]int {
+	out := map[string]int{}
+	for k, v := range a {
+		out[k] = v
+	}
+	for k, v := range b {
+		out[k] = v
+	}
+	return out
+}
+
+var l3Base = map[string]int{"GRID": 2, "GRIDMAG": 36, "N": 2}
+
+const l3Desc = "schemaGenerator.generateRootType + File.Generate + Sources (gofmt) executed symbolically on a root object whose property x is drawn from the shape grammar (inline or via $ref to a definition, required or optional, nullable or not) with symbolic constraint values; the emitted file is type-checked against the real dependency packages and its UnmarshalJSON executed symbolically on a symbolic document; the reference model's facet for this property is compared with the verdict on documents valid in every other facet"
+
+const l3Bounds = "one property x (plus one member p for object kinds, items for array kinds); exact-grid numbers (n/4, |.| <= 2^36); limits 1..2^20; document arrays <= N elements, untyped values nested <= 1 array level; E=1 extra member; regions of recorded findings owned by other properties are excluded"
+
+func l3Unit(name string, params map[string]int, only string, what string) Unit {
+	return Unit{Name: "generator+emitted-code/" + name, Harness: "pkg/generator:HarnessL3", Layer: "L3",
+		Desc: l3Desc + " -- " + what, Bounds: l3Bounds, Quick: mergeParams(l3Base, params), Panic: "inconclusive", Only: only}
+}
+
+var (
+	l3Scalars = map[string]int{"KINDS": 15, "DEPTH": 0}
+	l3Enums   = map[string]int{"KINDS": 4032, "DEPTH": 0}
+	l3Arrays  = map[string]int{"KINDS": 16, "DEPTH": 1, "ITEMKINDS": 3, "NUMSHAPES": 3, "STRSHAPES": 2}
+	l3Objects = map[string]int{"KINDS": 32, "DEPTH": 1, "ITEMKINDS": 7, "NUMSHAPES": 3, "STRSHAPES": 2}
+)
+
+func l3All(only string) []Unit {
+	return []Unit{
+		l3Unit("scalars", l3Scalars, only, "string/number/integer/boolean properties with every constraint shape"),
+		l3Unit("enums-any-formats-maps", l3Enums, only, "string/integer/mixed enums (typed and untyped), untyped properties, format-typed strings, typed maps (additionalProperties)"),
+		l3Unit("arrays", l3Arrays, only, "arrays of constrained strings/numbers with minItems/maxItems"),
+		l3Unit("nested-objects", l3Objects, only, "a nested object with one (required or optional, nullable or not) member"),
+	}
 }
 
 type Property struct {
@@ -47,6 +90,9 @@ func init() {
 		},
 		Assumptions: []string{"bound values are finite float64 (JSON numbers after parsing)"},
 	})
+	properties["C05"].Units = append(properties["C05"].Units,
+		l3Unit("numbers", map[string]int{"KINDS": 6, "DEPTH": 0}, "C05.", "number/integer properties: 7 bound shapes x nullable x required x inline/$ref"),
+		l3Unit("numbers-in-arrays-and-objects", map[string]int{"KINDS": 48, "DEPTH": 1, "ITEMKINDS": 6, "NUMSHAPES": 4}, "C05.", "numbers as array items and as members of a nested object"))
 	reg(&Property{
 		ID: "C06",
 		Units: []Unit{
@@ -57,6 +103,9 @@ func init() {
 		},
 		Assumptions: []string{"regexp.MatchString(p, s) is an uninterpreted predicate match_p(s) shared by the code and the reference model", "document strings are valid UTF-8"},
 	})
+	properties["C06"].Units = append(properties["C06"].Units,
+		l3Unit("strings", map[string]int{"KINDS": 1, "DEPTH": 0}, "C06.", "string properties: 8 constraint shapes x nullable x required x inline/$ref"),
+		l3Unit("strings-in-arrays-and-objects", map[string]int{"KINDS": 48, "DEPTH": 1, "ITEMKINDS": 1, "STRSHAPES": 3}, "C06.", "strings as array items and as members of a nested object"))
 	reg(&Property{
 		ID: "C07",
 		Units: []Unit{
@@ -72,6 +121,9 @@ func init() {
 				Panic:  "inconclusive"},
 		},
 	})
+	properties["C07"].Units = append(properties["C07"].Units,
+		l3Unit("arrays", map[string]int{"KINDS": 16, "DEPTH": 1, "ITEMKINDS": 3, "NUMSHAPES": 2, "STRSHAPES": 2}, "C07.", "array properties: 4 limit shapes x nullable x required x inline/$ref, items validated by their own schema"),
+		l3Unit("nested-arrays", map[string]int{"KINDS": 16, "DEPTH": 2, "ITEMKINDS": 18, "NUMSHAPES": 1, "ARRSHAPES": 3, "REF": 0}, "C07.", "arrays of arrays with their own limits at each level"))
 	reg(&Property{
 		ID: "C04",
 		Units: []Unit{
@@ -81,6 +133,19 @@ func init() {
 				Panic:  "inconclusive"},
 		},
 	})
+	properties["C04"].Units = append(properties["C04"].Units,
+		l3Unit("scalars", map[string]int{"KINDS": 15, "DEPTH": 0, "NUMSHAPES": 2, "STRSHAPES": 2}, "C04.", "required/optional x nullable x inline/$ref for scalar properties"),
+		l3Unit("maps-enums-formats", l3Enums, "C04.", "required/optional typed maps, enums, untyped and format-typed properties"),
+		l3Unit("nested-objects", l3Objects, "C04.", "required members of a nested object (which is itself required or optional)"))
+	reg(&Property{ID: "C01", Units: l3All("C01."),
+		Assumptions: []string{"go/types with the real dependency packages decides type-correctness; gofmt stability is checked on the text with hole identifiers (holes never sit in aligned columns)"}})
+	reg(&Property{ID: "C02", Units: l3All("C02.")})
+	reg(&Property{ID: "C03", Units: l3All("C03.")})
+	reg(&Property{ID: "C08", Units: []Unit{
+		l3Unit("enums", map[string]int{"KINDS": 448, "DEPTH": 0}, "C08.", "string/integer/mixed enums, typed and untyped, inline and via $ref"),
+		l3Unit("enums-in-arrays-and-objects", map[string]int{"KINDS": 48, "DEPTH": 1, "ITEMKINDS": 192}, "C08.", "enums as array items and object members"),
+	}})
+	reg(&Property{ID: "C19", Units: l3All("C19.")})
 	reg(&Property{
 		ID: "C15",
 		Units: []Unit{
